@@ -9,6 +9,12 @@ import (
 	"pgregory.net/rapid"
 )
 
+// NamedString and NamedStrings are defined types a program could use for IDs.
+type (
+	NamedString  string
+	NamedStrings []string
+)
+
 // FieldShape is one exported field of a generated struct type.
 type FieldShape struct {
 	Name    string
@@ -68,6 +74,10 @@ func ShapeFieldTypes() []reflect.Type {
 
 	str := ""
 	pstr := &str
+
+	// Defined types whose underlying type is a relationship's: not string
+	// and not []string.
+	ts = append(ts, reflect.TypeOf(NamedString("")), reflect.TypeOf([]NamedString{}), reflect.TypeOf(NamedStrings{}))
 
 	ts = append(ts,
 		reflect.TypeOf([]string{}), // to-many
@@ -134,6 +144,10 @@ func StructShape(t *rapid.T) Shape {
 
 			f.HasAPI = true
 			f.API = rapid.SampledFrom([]string{"rel,t", "rel,other", "rel,t,inv", "rel,t,a", "rel,t,", "rel,,inv", "rel,,"}).Draw(t, "reltag")
+		case mode == 6 && rapid.Bool().Draw(t, "namedrel"): // a relationship tag on a defined string-like type
+			f.GoType = rapid.SampledFrom([]reflect.Type{reflect.TypeOf(NamedString("")), reflect.TypeOf([]NamedString{}), reflect.TypeOf(NamedStrings{})}).Draw(t, "namedtype")
+			f.HasAPI = true
+			f.API = rapid.SampledFrom([]string{"rel,t", "rel,t,inv"}).Draw(t, "namedreltag")
 		default: // anything
 			f.GoType = rapid.SampledFrom(types).Draw(t, "gotype")
 			f.HasAPI = rapid.IntRange(0, 4).Draw(t, "hasapi") > 0
